@@ -14,6 +14,11 @@ from . import cbi, render
 INSIDE = {"src": "src", "inc": "inc", "sys": "sys/include", "bld": "build"}
 
 
+# every command defines the stringifying helper that rendered sources may use in `#define HDR XSTR( h.h )`
+XSTR_DEF = "XSTR(x)=#x"
+XSTR_ARG = "-D" + XSTR_DEF
+
+
 def x_args(e, rnd=None):
     """command-line spelling of the entry's definition of X"""
     if e["x"] == "U":
@@ -41,6 +46,9 @@ class Mat:
         self.lines_of = {}                    # file id -> list (per item) of physical lines
         self.text = {}
         os.makedirs(self.root)
+        # `#define HDR XSTR( h.h )` is only a valid spelling where HDR is not also defined (to "h.h") on the
+        # command line: a redefinition must repeat the same tokens
+        xstr = all(e.get("hdr", "U") == "U" for e in scen["ents"])
         for fid, f in sorted(scen["files"].items(), key=lambda kv: bool(kv[1].get("copyof"))):
             d = self.dir_path(f["dir"])
             os.makedirs(d, exist_ok=True)
@@ -55,7 +63,7 @@ class Mat:
                 text, lines_of = self.text[f["copyof"]], self.lines_of[f["copyof"]]
             else:
                 text, lines_of = render.render_c(f["items"], seed=rnd.random(), uid="v" + "".join(c for c in fid if c.isalnum()),
-                                                 plain=plain)
+                                                 plain=plain, xstr=xstr)
             if f.get("copyof") and random.Random(f"{seed}-hardlink").random() < 0.5:
                 # the copy is a second directory entry of the same inode (cp -l): still an ordinary file
                 os.link(self.paths[f["copyof"]], path)
@@ -80,6 +88,7 @@ class Mat:
         if e.get("xflag"):
             a.append(e["xflag"])
         a += x_args(e, rnd)
+        a += [XSTR_ARG]
         if e.get("hdr", "U") != "U":
             a += ["-DHDR=" + render.val_text(e["hdr"])]
         for r in e["idirs"]:
